@@ -12,6 +12,9 @@ pub struct Finding {
     /// failure class must equal one of these (empty = any)
     #[serde(default)]
     pub classes: Vec<String>,
+    /// failure class must start with one of these (empty = no constraint)
+    #[serde(default)]
+    pub class_prefixes: Vec<String>,
     /// every string must occur in the failure message
     #[serde(default)]
     pub msg_all: Vec<String>,
@@ -59,6 +62,9 @@ impl Findings {
                 continue;
             }
             if !k.classes.is_empty() && !k.classes.iter().any(|c| *c == f.class) {
+                continue;
+            }
+            if !k.class_prefixes.is_empty() && !k.class_prefixes.iter().any(|c| f.class.starts_with(c.as_str())) {
                 continue;
             }
             if !k.msg_all.iter().all(|m| f.msg.contains(m.as_str())) {
